@@ -47,6 +47,18 @@ theorem dwells_partition (path : List Int) (s : Int) :
   ⟨dwellRanges_false path s, by simpa [rle] using contig_rleFrom path 0, adjDiff_rleFrom path 0,
     expand_rleFrom path 0⟩
 
+/-- The same in index terms: every sample lies in a run, the runs are pairwise disjoint (and
+    ordered), and the path is constant on every run — "tile the trace exactly once". -/
+theorem dwells_tile (path : List Int) :
+    (∀ i, i < path.length → ∃ r ∈ rle path, r.start ≤ i ∧ i < r.stop) ∧
+    (rle path).Pairwise (fun r r' => r.stop ≤ r'.start) ∧
+    (∀ r ∈ rle path, ∀ i, r.start ≤ i → i < r.stop → path[i]? = some r.state) := by
+  have hc : Contig 0 path.length (rle path) := (dwells_partition path 0).2.1
+  refine ⟨fun i hi => contig_cover _ _ _ hc i (Nat.zero_le _) hi, contig_pairwise _ _ _ hc, ?_⟩
+  intro r hr i h1 h2
+  have := contig_constant _ _ _ hc r hr i h1 h2
+  rwa [(dwells_partition path 0).2.2.2, Nat.sub_zero] at this
+
 /-- With `exclude_ambiguous_dwells=True` exactly the first and the last run of the trace are missing
     (nothing is left of a constant trace). -/
 theorem dwells_exclude_ends (path : List Int) (s : Int) (hs : s ∈ path) :
@@ -139,13 +151,52 @@ theorem update_normalised (K : Nat) (pi : Nat → Rat) (A : Nat → Nat → Rat)
     | cons b0 bs => rw [hgs] at hlen; simp at hlen
   | cons g gs => exact hg g (by rw [hgs]; simp)
 
+/-- ext `gamma_exact`: `γ_t(i) · L` is the sum of `P(path, y)` over all paths with `s_t = i`, i.e. the
+    state posterior is exact (`L` = the exact likelihood by `likelihood_exact`). -/
+theorem gamma_exact (K : Nat) (pi : Nat → Rat) (A : Nat → Nat → Rat) (B : List Vec) (r : FB)
+    (h : forwardBackward K pi A B = some r) (hc : ∀ s ∈ r.steps, s.c ≠ 0)
+    (t : Nat) (ht : t < B.length) (i : Nat) (hi : i < K) :
+    atR (r.gammas.getD t []) i * r.likelihood = pinnedSpec K pi A B t i := by
+  cases B with
+  | nil => simp [forwardBackward] at h
+  | cons b0 bs =>
+    simp only [forwardBackward, Option.some.injEq] at h
+    subst h
+    simp only [FB.likelihood]
+    exact gamma_exact_aux K pi A b0 bs (hc _ (by simp)) (fun s hs => hc s (by simp [hs])) t ht i hi
+
+/-- ext `xi_exact`: `ξ_t(i,j) · L` is the sum of `P(path, y)` over all paths with `s_t = i`,
+    `s_{t+1} = j`. -/
+theorem xi_exact (K : Nat) (pi : Nat → Rat) (A : Nat → Nat → Rat) (B : List Vec) (r : FB)
+    (h : forwardBackward K pi A B = some r) (hc : ∀ s ∈ r.steps, s.c ≠ 0)
+    (t : Nat) (ht : t + 1 < B.length) (i j : Nat) (hi : i < K) (hj : j < K) :
+    atR (((r.xis.getD t []).getD i [])) j * r.likelihood = pinned2Spec K pi A B t i j := by
+  cases B with
+  | nil => simp [forwardBackward] at h
+  | cons b0 bs =>
+    simp only [forwardBackward, Option.some.injEq] at h
+    subst h
+    simp only [FB.likelihood]
+    exact xi_exact_aux K pi A b0 bs (hc _ (by simp)) (fun s hs => hc s (by simp [hs])) t ht i j hi hj
+
+/-
+  ext `em_monotone` (NOT proved; stated for the record, explored only by the harness):
+  for the model `m' = update m (γ, ξ)` obtained from the E-step of `m` on data `y` with all `c_t ≠ 0`,
+  `likelihood m' y ≥ likelihood m y` (Jensen's inequality for the auxiliary function `Q(m, m')`
+  plus the fact that `π' = γ_0`, `A' = Σξ/Σγ`, `μ' = Σγx/Σγ`, `σ'² = Σγ(x-μ')²/Σγ` maximise `Q`).
+  It needs `Real.log`/`Real.exp` for the Gaussian emissions, which the rational model does not have.
+-/
+
 /-- Non-vacuity: a two-state model on three observations; every `c_t ≠ 0`, and the likelihood is the
     36000-th part of 1031 on both sides. -/
 example :
     ∃ r, forwardBackward 2 (atR [1/2, 1/2]) (fnOfRows [[9/10, 1/10], [2/10, 8/10]])
         [[1/2, 1/3], [1/5, 1/7], [1/3, 1/2]] = some r ∧ (∀ s ∈ r.steps, s.c ≠ 0) ∧
       r.likelihood = 1031 / 36000 ∧
-      (∀ i, i < 2 → sumT r.gammas.dropLast (fun g => atR g i) ≠ 0) := by
-  refine ⟨_, rfl, ?_, ?_, ?_⟩ <;> decide +kernel
+      (∀ i, i < 2 → sumT r.gammas.dropLast (fun g => atR g i) ≠ 0) ∧
+      atR (r.gammas.getD 1 []) 0 * r.likelihood = 217 / 12000 ∧
+      pinnedSpec 2 (atR [1/2, 1/2]) (fnOfRows [[9/10, 1/10], [2/10, 8/10]])
+        [[1/2, 1/3], [1/5, 1/7], [1/3, 1/2]] 1 0 = 217 / 12000 := by
+  refine ⟨_, rfl, ?_, ?_, ?_, ?_, ?_⟩ <;> decide +kernel
 
 end Verif.C16
